@@ -245,9 +245,9 @@ def parse_rvalue(s):
     if s.startswith("&raw const (fake) "):
         return ("ref", parse_place(s[len("&raw const (fake) "):]))
     if s.startswith("&raw const ") or s.startswith("&raw mut "):
-        return ("ref", parse_place(s.split(" ", 2)[2]))
+        return ("ref", parse_place(s.split(" ", 2)[2]), s.startswith("&raw mut "))
     if s.startswith("&mut "):
-        return ("ref", parse_place(s[5:]))
+        return ("ref", parse_place(s[5:]), True)
     if s.startswith("&"):
         t = s[1:].strip()
         if t.startswith("fake shallow "):
